@@ -46,7 +46,7 @@ from __future__ import annotations
 import ast
 import re
 
-from ..dataflow import reaching_defs
+from ..dataflow import _param_args, reaching_defs
 from ..facts import facts_at
 from ..model import parent, unparse
 from ..selftest import V
@@ -63,6 +63,7 @@ from ._util_C import (
     origins,
     resolves_to,
     strip_await,
+    within,
 )
 
 WF = "streamflow.core.workflow"
@@ -578,38 +579,135 @@ def _no_ports_fact(p, f, atom, truth) -> bool:
     return pol is not None and (pol == 1) == (truth is False)
 
 
+_VIEWS = ("values", "keys", "items", "copy")
+_COPIES = ("list", "tuple", "set", "dict", "frozenset", "sorted")
+
+
+def _view_root(e):
+    """`X` of `X.values()` / `list(X)` / `tuple(X.items())` ...: wrappers that are empty exactly when `X` is."""
+    while isinstance(e, ast.Call) and not e.keywords:
+        if isinstance(e.func, ast.Attribute) and e.func.attr in _VIEWS and not e.args:
+            e = e.func.value
+        elif isinstance(e.func, ast.Name) and e.func.id in _COPIES and len(e.args) == 1 and not isinstance(e.args[0], ast.Starred):
+            e = e.args[0]
+        else:
+            break
+    return e
+
+
+def _only_param(f, name) -> bool:
+    ds = defs_of(f, name)
+    return bool(ds) and all(d.kind == "param" for d in ds)
+
+
+def _bound(e, bind):
+    """`e` with a helper parameter at its root replaced by the argument of the calling context (`bind`: name -> expr)."""
+    r = _view_root(e)
+    if is_name(r) and r.id in bind:
+        return _view_root(bind[r.id]), True
+    return r, False
+
+
+def _is_empty_display(e) -> bool:
+    return e is None or (isinstance(e, (ast.List, ast.Tuple, ast.Set)) and not e.elts) or (isinstance(e, ast.Dict) and not e.keys) \
+        or const(e) is None
+
+
+def _ids_kinds(p, f, ids, bind, _depth=1):
+    """Classification of every value `input_token_ids=<ids>` may denote in `f`: 'ids' (get_entity_ids over something),
+    'empty' (`[]`, `get_entity_ids([])`, `get_entity_ids({}.values())`), 'combinator' (collected `input_ids`), 'other'.
+    `bind` maps the parameters of a private helper to the argument expressions of one calling context: a parameter that
+    is the recorded ids, or the root of the collection handed to get_entity_ids, is read as what that caller passes.
+    -> [(kind, via_caller)]"""
+    kinds = []
+    for o in _follow(f, ids):
+        if is_name(o) and o.id in bind and _depth:
+            g, e = bind[o.id]
+            kinds.extend((k, True) for k, _ in _ids_kinds(p, g, e, {}, _depth - 1))
+        elif isinstance(o, ast.Call) and resolves_to(p, f, o, GEI):
+            arg = kwarg(o, "persistable_entities", 0)
+            root, via = _bound(arg, {k: v[1] for k, v in bind.items()}) if arg is not None else (None, False)
+            kinds.append(("empty" if _is_empty_display(root) else "ids", via))
+        elif isinstance(o, (ast.List, ast.Tuple)) and not o.elts:
+            kinds.append(("empty", False))
+        elif any(isinstance(x, ast.Subscript) and const(x.slice) == "input_ids" for x in ast.walk(o)):
+            kinds.append(("combinator", False))
+        else:
+            kinds.append(("other", False))
+    return kinds
+
+
+def _ids_params(p, f, ids):
+    """Parameters of `f` that decide what `input_token_ids=<ids>` records: the ids themselves (`input_token_ids=ids`) or the
+    root of the get_entity_ids collection (`get_entity_ids(tokens)`, `get_entity_ids(inputs.values())`)."""
+    out = []
+    for o in _follow(f, ids):
+        r = None
+        if is_name(o):
+            r = o
+        elif isinstance(o, ast.Call) and resolves_to(p, f, o, GEI) and o.args:
+            r = _view_root(o.args[0])
+        if is_name(r) and r.id not in ("self", "cls") and _only_param(f, r.id) and r.id not in out:
+            out.append(r.id)
+    return out
+
+
+def _calling_contexts(p, f, names):
+    """[(caller, call, {param: (caller, argument)})] for every resolved call site of the *private* method `f` (helper
+    extraction: the recording site moved into a helper, what is recorded is decided by the callers); None when `f` is
+    not a private helper with resolved call sites or a binding is unknown (dataflow._param_args)."""
+    if not names:
+        return None
+    per = {n: _param_args(p, f, n) for n in names}
+    if any(v is None for v in per.values()):
+        return None
+    sites = p.callers(f.qualname)
+    if not sites or any(len(v) != len(sites) for v in per.values()) or len(sites) > 8:
+        return None
+    return [(g, c, {n: per[n][i] for n in names}) for i, (g, c) in enumerate(sites)]
+
+
+def _no_ports_at(p, f, node) -> bool:
+    g = f.cfg
+    cid = g.node_containing(node)
+    return bool(cid) and all(any(_no_ports_fact(p, f, a, v) for a, v in facts_at(g, i)) for i in cid)
+
+
 def r5(ctx):
     p = ctx.prog
     for f, call in _persist_sites(p, _step_classes(p)):
-        g = None
         ids = kwarg(call, "input_token_ids", 2)
         where = f.qualname.split(".", 2)[-1]
         inst = f"inputs:{where}:{unparse(kwarg(call, 'token', 0) or call)[:60]}:{unparse(ids)[:60] if ids is not None else '?'}"
         if ids is None:
             ctx.ob("R5", f"{where}: input_token_ids is passed", False, func=f, node=call, instance=inst)
             continue
-        kinds = []
-        for o in _follow(f, ids):
-            if isinstance(o, ast.Call) and resolves_to(p, f, o, GEI):
-                arg = o.args[0] if o.args else None
-                empty = arg is None or (isinstance(arg, (ast.List, ast.Tuple, ast.Set)) and not arg.elts) or const(arg) is None
-                kinds.append("empty" if empty else "ids")
-            elif isinstance(o, (ast.List, ast.Tuple)) and not o.elts:
-                kinds.append("empty")
-            elif any(isinstance(x, ast.Subscript) and const(x.slice) == "input_ids" for x in ast.walk(o)):
-                kinds.append("combinator")
-            else:
-                kinds.append("other")
-        ok = bool(kinds) and all(k in ("ids", "combinator") for k in kinds)
-        msg = f"`input_token_ids={unparse(ids)[:80]}` is not derived from the consumed inputs"
-        if kinds and all(k == "empty" for k in kinds):
-            # allowed only where the step has no input ports: a branch fact "<the ports> is empty" holds at the call
-            # (facts are independent of the spelling of the test: `if P: .. else: HERE`, `if not P: HERE`, guard clauses)
-            g = g or f.cfg
-            cid = g.node_containing(call)
-            ok = bool(cid) and all(any(_no_ports_fact(p, f, a, v) for a, v in facts_at(g, i)) for i in cid)
-            msg = "`input_token_ids=[]` on a path where the step consumed inputs: the emitted token has no provenance"
-        ctx.ob("R5", f"{where}: the consumed inputs are recorded as provenance", ok, func=f, node=call, instance=inst, message=msg)
+        # one instance per calling context when the site sits in a private helper whose parameter decides what is recorded
+        contexts = _calling_contexts(p, f, _ids_params(p, f, ids)) or [(None, None, {})]
+        many = len(contexts) > 1
+        seen_inst = {}
+        for g, site, bind in contexts:
+            kinds = _ids_kinds(p, f, ids, bind)
+            via = g is not None and any(v for _, v in kinds)  # decided by what this caller passes
+            ok = bool(kinds) and all(k in ("ids", "combinator") for k, _ in kinds)
+            frm = f" (called from {g.qualname.split('.', 2)[-1]}: `{unparse(site)[:70]}`)" if g is not None else ""
+            msg = f"`input_token_ids={unparse(ids)[:80]}`{frm} is not derived from the consumed inputs"
+            if kinds and all(k == "empty" for k, _ in kinds):
+                # allowed only where the step has no input ports: a branch fact "<the ports> is empty" holds at the call
+                # (facts are independent of the spelling of the test: `if P: .. else: HERE`, `if not P: HERE`, guard clauses);
+                # for a helper the fact may hold at the call site of this context instead
+                ok = _no_ports_at(p, f, call) or (g is not None and _no_ports_at(p, g, site))
+                what = f"`{unparse(site)[:80]}` makes {f.name} record `input_token_ids=[]`" if via else "`input_token_ids=[]`"
+                msg = f"{what} on a path where the step consumed inputs: the emitted token has no provenance"
+            ci = inst
+            if many:
+                ci = f"{inst}@{g.qualname.split('.', 2)[-1]}:{unparse(site)[:60]}"
+                seen_inst[ci] = seen_inst.get(ci, 0) + 1
+                if seen_inst[ci] > 1:
+                    ci += f"#{seen_inst[ci]}"
+            at_site = via and not ok
+            ctx.ob("R5", f"{where}: the consumed inputs are recorded as provenance{frm if many else ''}", ok,
+                   func=g if at_site else f, node=site if at_site else call, instance=ci, message=msg)
 
 
 # --------------------------------------------------------------------------- R6
@@ -676,6 +774,64 @@ R6_EXCEPTIONS = {
 }
 
 
+def _param_bound_to(k, c, a):
+    """Name of the parameter of method `k` that the argument expression `a` of the call `c` is bound to (None: unknown)."""
+    args = k.node.args
+    pos = [x.arg for x in args.posonlyargs + args.args]
+    names = set(pos) | {x.arg for x in args.kwonlyargs}
+    if pos and pos[0] in ("self", "cls") and k.cls is not None and isinstance(c.func, ast.Attribute):
+        pos = pos[1:]
+    for i, x in enumerate(c.args):
+        if isinstance(x, ast.Starred):
+            return None
+        if x is a:
+            return pos[i] if i < len(pos) else None
+    for kw in c.keywords:
+        if kw.value is a:
+            return kw.arg if kw.arg in names else None
+    return None
+
+
+def _only_recorded(p, f, c, a, classes):
+    """The argument `a` of the call `c` (evaluated in `f`) only ever becomes recorded provenance: `c` is `_persist_token`
+    itself (then `a` is its `input_token_ids`), or `c` resolves to private Step helper(s) in which the parameter bound to
+    `a` -- and the locals computed from it -- are read only inside the `input_token_ids` of `_persist_token` calls
+    (helper extraction, inlined one level).  -> (True, [helper names]) or (False, [])"""
+    if resolves_to(p, f, c, PERSIST):
+        return True, []
+    rs = p.resolve_call(f, c)
+    if not rs:
+        return False, []
+    via = []
+    for r in rs:
+        k = p.functions.get(r)
+        if k is None or k.cls is None or k.cls.qualname not in classes or not k.name.startswith("_") or k.name.startswith("__"):
+            return False, []
+        name = _param_bound_to(k, c, a)
+        if name is None or not _only_param(k, name):
+            return False, []
+        ids = [kwarg(pc, "input_token_ids", 2) for pc in k.calls() if resolves_to(p, k, pc, PERSIST)]
+        ids = [e for e in ids if e is not None]
+        if not ids:
+            return False, []
+        tainted, grew = {name}, True
+        plain = [n for n in ast.walk(k.node) if isinstance(n, ast.Assign) and len(n.targets) == 1 and is_name(n.targets[0])]
+        while grew:
+            grew = False
+            for n in plain:
+                if n.targets[0].id not in tainted and any(is_name(x) and x.id in tainted for x in ast.walk(n.value)):
+                    tainted.add(n.targets[0].id)
+                    grew = True
+        for n in ast.walk(k.node):
+            if not (isinstance(n, ast.Name) and isinstance(n.ctx, ast.Load) and n.id in tainted):
+                continue
+            if any(within(n, e) for e in ids) or any(n_.targets[0].id in tainted and within(n, n_.value) for n_ in plain):
+                continue
+            return False, []
+        via.append(k.name)
+    return True, via
+
+
 def r6(ctx):
     p = ctx.prog
     classes = _step_classes(p)
@@ -722,9 +878,12 @@ def r6(ctx):
                             stale.append((c, a, hit))
             inst = f"group:{where}" + (f":{k}" if k else "")
             exc = R6_EXCEPTIONS.get(f.qualname)
-            if tgt is None and exc is not None and stale and all(resolves_to(p, f, c, PERSIST) for c, _, _ in stale):
+            rec = [_only_recorded(p, f, c, a, classes) for c, a, _ in stale] if tgt is None and exc is not None else []
+            if rec and all(r for r, _ in rec):
+                via = sorted({h for _, hs in rec for h in hs})
                 ctx.observe(f"C07.R6: {f.qualname}: `{unparse(st)[:60]}` discards the completed tag group and `{unparse(stale[0][1])[:60]}` "
-                            f"records the last received batch; table exception ({exc})")
+                            f"records the last received batch" + (f" (through the helper {', '.join(via)}, where it only becomes "
+                                                                   "`input_token_ids`)" if via else "") + f"; table exception ({exc})")
                 ctx.ob("R6", f"{where}: table exception ({exc})", True, func=f, node=st, instance=inst, trivial=True)
                 continue
             grp = f"`{tgt} = {m.id}.pop(..)`" if tgt else f"`{m.id}.pop(..)`"
@@ -1008,6 +1167,40 @@ _DEPLOY_ELSE = (
     "            " + _DEPLOY_PUT.format("[]") +
     "            status = Status.COMPLETED\n"
 )
+# helper extraction in DeployStep.run (benign B12-1): both deploy-and-put blocks move into a private coroutine that receives
+# the tokens to record; the helper is appended after `run` (same class)
+_DEPLOY_TAIL = (
+    "        await self.terminate(self._get_status(status))\n"
+    "    except KeyboardInterrupt:\n"
+    "        raise\n"
+    "    except asyncio.CancelledError:\n"
+    "        await self.terminate(Status.CANCELLED)\n"
+    "    except Exception as e:\n"
+    "        logger.exception(e)\n"
+    "        await self.terminate(Status.FAILED)"
+)
+_DEPLOY_BLOCKS = (
+    "                        inputs_map.pop(tag)\n"
+    "                        await self.workflow.context.deployment_manager.deploy(self.deployment_config)\n"
+    "                        " + _DEPLOY_PUT.format("get_entity_ids(inputs.values())") +
+    "        else:\n" + _DEPLOY_ELSE + _DEPLOY_TAIL
+)
+_DEPLOY_EXTRACTED = (
+    "                        inputs_map.pop(tag)\n"
+    "                        await self._deploy_and_propagate({})\n"
+    "        else:\n"
+    "            await self._deploy_and_propagate({})\n"
+    "            status = Status.COMPLETED\n" + _DEPLOY_TAIL +
+    "\n\nasync def _deploy_and_propagate(self, input_tokens) -> None:\n"
+    "    await self.workflow.context.deployment_manager.deploy(self.deployment_config)\n"
+    "    self.get_output_port().put(await self._persist_token(token=Token(value={}, recoverable=True), "
+    "port=self.get_output_port(), input_token_ids=get_entity_ids(input_tokens)))\n"
+)
+_CWL_TRUE_LOOP = (
+    "    for port_name, port in self.get_output_ports().items():\n"
+    "        port.put(await self._persist_token(token=inputs[port_name].update(inputs[port_name].value), port=port, "
+    "input_token_ids=get_entity_ids(inputs.values())))"
+)
 _TR_PUT = "self.get_output_port(port_name).put(await self._persist_token(token={}, port=self.get_output_port(port_name), input_token_ids={}))\n"
 _TR_THEN = (
     "            inputs_map: dict[str, dict[str, Token]] = {}\n"
@@ -1100,7 +1293,13 @@ VARIANTS = [
       _TR_IF, "        empty = not (input_ports := self._filter_input_ports())\n        if empty:\n", "R5"),
     V("[] where some ports exist (`len(<ports>) > 1` false does not mean none)", SFILE, f"{STEPM}.DeployStep.run",
       "        if self.input_ports:\n            inputs_map:", "        if len(self.input_ports) > 1:\n            inputs_map:", "R5"),
+    V("extracted deploy helper is handed [] on the branch that consumed inputs (the helper's parameter decides what is recorded)", SFILE,
+      f"{STEPM}.DeployStep.run", _DEPLOY_BLOCKS, _DEPLOY_EXTRACTED.format("[]", "[]", "self.deployment_config.name"), "R5"),
+    V("conditional step hands an empty mapping to _on_true where inputs were consumed: every override records get_entity_ids({}.values())",
+      SFILE, f"{STEPM}.ConditionalStep.run", "await self._on_true(inputs)", "await self._on_true({})", "R5"),
     # ---- R6
+    V("extracted deploy helper also builds the emitted value from the raw batch (more than recording: no table exception)", SFILE,
+      f"{STEPM}.DeployStep.run", _DEPLOY_BLOCKS, _DEPLOY_EXTRACTED.format("inputs.values()", "[]", "[t.value for t in input_tokens]"), "R6"),
     V("partial rename: transformer outputs linked to the last batch instead of the completed tag group", SFILE, f"{STEPM}.Transformer.run",
       _TR_GROUP, _TR_GROUP.replace("inputs", "tag_inputs").replace("tag_inputs_map", "inputs_map"), "R6", control=True),
     V("conditional step evaluates and forwards the raw batch", SFILE, f"{STEPM}.ConditionalStep.run",
@@ -1145,6 +1344,15 @@ VARIANTS = [
     V("ports of the transformer selected into differently named locals (R5 finds the branch test by what it evaluates)", SFILE,
       f"{STEPM}.Transformer.run", "if (input_ports := self._filter_input_ports()):",
       "selected = self._filter_input_ports()\n        input_ports = selected\n        if selected:", None),
+    V("B12-1: both deploy-and-put blocks extracted into a private coroutine receiving the tokens to record ([] only from the no-ports "
+      "branch; the batch only becomes input_token_ids inside the helper)", SFILE, f"{STEPM}.DeployStep.run",
+      _DEPLOY_BLOCKS, _DEPLOY_EXTRACTED.format("inputs.values()", "[]", "self.deployment_config.name"), None),
+    V("same extraction with the ids computed by the callers and handed over by keyword", SFILE, f"{STEPM}.DeployStep.run", _DEPLOY_BLOCKS,
+      _DEPLOY_EXTRACTED.format("ids=get_entity_ids(inputs.values())", "ids=[]", "self.deployment_config.name")
+      .replace("(self, input_tokens)", "(self, ids)").replace("input_token_ids=get_entity_ids(input_tokens)", "input_token_ids=ids"), None),
+    V("B17-6: the propagate loop of a CWL conditional step moved into a private helper of the class", CWLFILE,
+      "streamflow.cwl.step.CWLConditionalStep._on_true", _CWL_TRUE_LOOP,
+      "    await self._propagate_outputs(inputs)\n\nasync def _propagate_outputs(self, inputs) -> None:\n" + _CWL_TRUE_LOOP, None),
     V("grouping map renamed", SFILE, f"{STEPM}.ConditionalStep.run", "inputs_map", "groups", None, count=5),
     V("group through a temporary", SFILE, f"{STEPM}.Transformer.run",
       "inputs = inputs_map.pop(tag)", "group = inputs_map.pop(tag)\n                        inputs = group", None),
